@@ -77,8 +77,9 @@ def jobs(ctx):
     def makers():
         for nm, sig, kind, cnt in (('MakeUnique', r'auto\s+MakeUnique\s*\(\s*Args\s*&&\s*\.\.\.\s*args\s*\)', 'K_ONE', '0'), ('MakeShared', r'auto\s+MakeShared\s*\(\s*std::size_t\s+n\s*,\s*Args\s*&&\s*\.\.\.\s*args\s*\)', 'K_ATOMIC', 'n')):
             b = find_body(repo, F_HELP, sig, nm)
-            pre = [(r'return\s+IntrusivePtr\{\s*NoRefTag\{\s*\}\s*,\s*new\s+detail::Helper<detail::(\w+)Counter,\s*ObjectT>\{\s*([^,{};]+?)\s*,\s*std::forward<Args>\(args\)\.\.\.\s*\}\s*\}\s*;',
-                    r'return ADOPT(NEW_HELPER(K_\1, \2));', 1)]
+            # expression level: the `new Helper<Counter, ObjectT>{count, args...}` and the adopting handle may be one expression or go through a named local
+            pre = [(r'new\s+detail::Helper<detail::(\w+)Counter,\s*ObjectT>\{\s*([^,{};]+?)\s*,\s*std::forward<Args>\(args\)\.\.\.\s*\}', r'NEW_HELPER(K_\1, \2)', 1),
+                   (r'IntrusivePtr\{\s*NoRefTag\{\s*\}\s*,\s*((?:[^{}()]|\([^()]*\))+?)\s*\}', r'ADOPT(\1)', 1), (r'\bauto\s*\*\s*(\w+)\s*=', r'void* \1 =', 0)]
             c = Rewriter(nm, pre=pre).rewrite(b.text)
             c = c.replace('K_One', 'K_ONE').replace('K_Atomic', 'K_ATOMIC')
             src = COMMON + '''enum { K_ONE = 1, K_ATOMIC = 2 }; unsigned g_adopts;
@@ -173,7 +174,7 @@ __CPROVER_assigns(g_invokes, g_t_invoke, g_deletes, g_deleted, g_t_delete, g_clo
 /* C03, C05: a called job runs its functor exactly once and THEN frees itself exactly once (the functor runs on a live object) */
 __CPROVER_ensures(g_invokes == 1 && g_deletes == 1 && g_deleted == self && g_t_invoke < g_t_delete)
 {''' + Rewriter('UniqueJob::Call', pre=pre).rewrite(b_call.text) + '}\nvoid harness(void) { void* s; ghost_reset(); Call(s); VF_CANARY("end"); }\n'
-        job('UniqueJob.Call', b_call, src, 'Call', ['SafeCall_Call', 'Drop'])
+        job('UniqueJob.Call', b_call, src, 'Call', ['SafeCall_Call', 'Drop', 'DELETE'])
         c = Rewriter('MakeUniqueJob', pre=[(r'return\s+new\s+UniqueJob<decltype\(std::forward<Func>\(f\)\)>\{\s*std::forward<Func>\(f\)\s*\}\s*;', 'return NEW_JOB(f);', 1)]).rewrite(b_make.text)
         src = COMMON + '''void* g_job_func;
 void* NEW_JOB(void* f) __CPROVER_assigns(g_news, g_new_obj, g_job_func) __CPROVER_ensures(g_news == OLD(g_news) + 1 && RET == g_new_obj && RET != 0 && g_job_func == f);
